@@ -16,6 +16,7 @@ import concurrent.futures
 import json
 import os
 import random
+import shutil
 
 import lib
 
@@ -317,6 +318,10 @@ def run(ctx):
     load_own_findings(ctx)
     rng = random.Random(ctx.seed)
     binary = ctx.build("render")
+    # private copy: other agents' mutant runs remove /verif/.build-* directories at any moment
+    private = ctx.path("render-bin")
+    shutil.copy2(binary, private)
+    binary = private
     if ctx.replay_in:
         return replay_file(ctx, binary)
     quick = ctx.quick()
